@@ -83,7 +83,13 @@ Calls ==
   \cup {[op |-> o, v |-> v, b |-> b, w |-> w] : o \in DecodeOps, v \in PS, b \in BS, w \in 1..WDecode}
   \cup {[op |-> o, p |-> p, b |-> b] : o \in {"pt.UncompressedBytes", "pt.CompressedBytes", "pt.XBytes"}, p \in PS, b \in BS}
   \cup {[op |-> o, s |-> s, p |-> p, q |-> q] : o \in {"sc.Add", "sc.Multiply"}, s \in SS, p \in SS, q \in SS}
-  \cup {[op |-> o, s |-> s, p |-> p] : o \in {"sc.Negate", "sc.Invert"}, s \in SS, p \in SS}
+  \cup {[op |-> o, s |-> s, p |-> p] : o \in {"sc.Negate", "sc.Invert", "sc.Square"}, s \in SS, p \in SS}
+  \cup {[op |-> "sc.Subtract", s |-> s, p |-> p, q |-> q] : s \in SS, p \in SS, q \in SS}
+  \cup {[op |-> "sc.Equal", p |-> p, q |-> q] : p \in SS, q \in SS}
+  \cup {[op |-> o, p |-> p] : o \in {"sc.IsZero", "sc.IsGreaterThanHalfN"}, p \in SS}
+  \cup {[op |-> o, s |-> s, p |-> p, q |-> q, t |-> t] : o \in {"sc.Sum", "sc.Product"}, s \in SS, p \in SS, q \in SS, t \in SS}
+  \cup {[op |-> "sc.CondNegate", s |-> s, p |-> p, c |-> c] : s \in SS, p \in SS, c \in {0, 1, 2}}
+  \cup {[op |-> "sc.CondSelect", s |-> s, p |-> p, q |-> q, c |-> c] : s \in SS, p \in SS, q \in SS, c \in {0, 1, 2}}
   \cup {[op |-> o, s |-> s, b |-> b, w |-> w] : o \in {"sc.SetBytes", "sc.SetCanonicalBytes", "sc.Bytes"}, s \in SS, b \in BS, w \in 1..WDecode}
   \cup {[op |-> o, b |-> b, w |-> w] : o \in {"key.NewPrivate", "key.PrivBytes", "key.NewPublic", "key.PubBytes", "key.PubCompressed", "key.ECDH"}, b \in BS, w \in 1..WKey}
   \cup {[op |-> o, s |-> s, w |-> w] : o \in {"key.NewPrivateFromScalar", "key.PrivScalar"}, s \in SS, w \in 1..WKey}
